@@ -29,7 +29,7 @@ RULE = ("geom: n in 1..8, Delta = 10^U(-3,2), xbase = 0 (50%) or N(0,1)*10^U(-1,
         "independently active (gap 0), tiny (Delta*10^U(-14,-6)), comparable (Delta*U(0.05,1.5)), far (Delta*10^U(1,3)) or "
         "absent (1e20); 5% of coordinates have lower == upper == xbase.  NON-TRIVIAL geom case: g != 0 and the exact "
         "maximiser has at least one coordinate clipped at a box side (the box matters) .  "
-        "convex: n in 1..6, Delta = 10^U(-3,2), 0..3 sets among ball / half-space / box of size Delta*10^U(-1.5,1.5), each "
+        "convex: n in 1..6 (at most 4 with two or more sets), Delta = 10^U(-3,2), 0..3 sets among ball / half-space / box of size Delta*10^U(-1.5,1.5), each "
         "containing the centre, with the centre on the boundary of the set w.p. 0.3; H fullrank/rankdef/indefinite (zero H "
         "w.p. 3%); solver pgd / sfista (h = lam*||x||_1 or lam*||x||_2, lam = 10^U(-2,1)) / convex geometry.  NON-TRIVIAL "
         "convex case: at least one set besides the trust region and the returned step is non-zero.  "
@@ -38,7 +38,8 @@ RULE = ("geom: n in 1..8, Delta = 10^U(-3,2), xbase = 0 (50%) or N(0,1)*10^U(-1,
         "NON-TRIVIAL when the raw S-FISTA step had negative predicted reduction (zero step substituted) or a bound/set is "
         "active at xopt.  regsolve: regularised linear-least-squares runs (n in 2..4, maxfun = npt+10) with every "
         "trust_region_step call checked; NON-TRIVIAL call: zero step substituted.  All draws from "
-        "numpy.random.default_rng((seed, task_index)); numpy's global generator is seeded per solve for replay.")
+        "numpy.random.default_rng((seed, task_index)); numpy's global generator is seeded per solve for replay.  A convex / "
+        "regstep case that needs more than 4 s CPU (regsolve: 8 s) is abandoned and counted under */skipped_cpu_limit.")
 
 EPS = 2.0 ** -52
 
@@ -63,6 +64,37 @@ def _unhx(h):
 
 def _bump(stats, key, n=1):
     stats[key] = stats.get(key, 0) + n
+
+
+class _CaseTimeout(BaseException):
+    """raised by the CPU-time guard; BaseException so that neither dfols nor the checks below swallow it"""
+
+
+def _on_vtalrm(signum, frame):
+    raise _CaseTimeout()
+
+
+def with_cpu_limit(seconds, fn, *args):
+    """run fn(*args) with a limit on the CPU time of this process (ITIMER_VIRTUAL / SIGVTALRM, which does not disturb a
+    SIGALRM set by the caller).  Returns (True, result) or (False, None).  The Dykstra-based solvers have a worst case of
+    100 n^2 outer x 100 inner sweeps x number of sets, i.e. > 10 s for n >= 5 with three sets; such a case is skipped
+    and counted in stats, it is neither an evaluation nor a violation."""
+    import signal
+    try:
+        old = signal.signal(signal.SIGVTALRM, _on_vtalrm)
+    except (ValueError, AttributeError):      # not in the main thread / not available: run unguarded
+        return True, fn(*args)
+    try:
+        signal.setitimer(signal.ITIMER_VIRTUAL, seconds)
+        try:
+            out = fn(*args)
+        finally:
+            signal.setitimer(signal.ITIMER_VIRTUAL, 0)
+        return True, out
+    except _CaseTimeout:
+        return False, None
+    finally:
+        signal.signal(signal.SIGVTALRM, old)
 
 
 # ---------------------------------------------------------------------------------------------- exact linear oracle
@@ -359,11 +391,15 @@ def gen_convex(rng):
     n = int(rng.integers(1, 7))
     Delta = 10.0 ** rng.uniform(-3, 2)
     xopt = np.zeros(n) if rng.random() < 0.4 else rng.standard_normal(n) * 10.0 ** rng.uniform(-1, 1)
+    sets = gen_sets(rng, xopt, Delta)
+    if len(sets) >= 2 and n > 4:          # keeps the worst case of the projected-gradient loops affordable
+        n = 4
+        xopt = xopt[:n].copy()
+        sets = gen_sets(rng, xopt, Delta)
     g = rng.standard_normal(n) * 10.0 ** rng.uniform(-2, 2)
     if rng.random() < 0.25:
         g[rng.random(n) < 0.4] = 0.0
     H, hk = gen_H(rng, n)
-    sets = gen_sets(rng, xopt, Delta)
     solver = ['pgd', 'sfista', 'cgeom'][int(rng.integers(0, 3))]
     cs = dict(fn=solver, xopt=xopt, g=g, H=H, hkind=hk, sets=sets, Delta=Delta)
     if solver == 'sfista':
@@ -655,7 +691,7 @@ def tasks(seed, tier):
     out = []
     i = 0
     for kind, ntask, ncase in (('geom', 16 if q else 80, 1000 if q else 4000),
-                               ('convex', 32 if q else 480, 30 if q else 40),
+                               ('convex', 48 if q else 640, 20 if q else 30),
                                ('regstep', 32 if q else 480, 10 if q else 14),
                                ('regsolve', 32 if q else 640, 1)):
         for _ in range(ntask):
@@ -669,6 +705,7 @@ def tasks(seed, tier):
 GEN = dict(geom=gen_geom, convex=gen_convex, regstep=gen_regstep, regsolve=gen_regsolve)
 CHECK = dict(geom=check_geom, convex=check_convex, regstep=check_regstep, regsolve=check_regsolve)
 DATA = dict(geom=_geom_data, convex=_convex_data, regstep=_regstep_data, regsolve=_regsolve_data)
+LIMIT = dict(convex=4.0, regstep=4.0, regsolve=8.0)      # CPU seconds per case, see with_cpu_limit
 
 
 def run_task(task):
@@ -678,7 +715,15 @@ def run_task(task):
     evals = nontriv = 0
     for k in range(task['ncases']):
         cs = GEN[kind](rng)
-        vs, info = CHECK[kind](cs)
+        if kind in LIMIT:
+            ok, out = with_cpu_limit(LIMIT[kind], CHECK[kind], cs)
+            if not ok:
+                _bump(stats, '%s/skipped_cpu_limit_%gs' % (kind, LIMIT[kind]))
+                _bump(stats, '%s/skipped_cpu_limit:%s' % (kind, cs['fn'] if kind == 'convex' else cs['mode']))
+                continue
+            vs, info = out
+        else:
+            vs, info = CHECK[kind](cs)
         for x in vs:
             x['data']['task'] = dict(seed=task['seed'], i=task['i'], case=k, kind=kind)
             _bump(stats, 'violations:' + x['signature'])
